@@ -139,7 +139,7 @@ PROPERTIES = {
     'C03': dict(
         units=['active_peers', 'crypto', 'tls_config', 'wire', 'enum_glue', 'enum_certs'],
         canaries=['dialing', 'streams', 'crypto', 'tls_config', 'certs'],
-        extra=[validate.history_c03, validate.cert_corpus, validate.stolen_certificate],
+        extra=[validate.history_c03, validate.cert_corpus, validate.stolen_certificate, validate.admission_scenarios],
         counterexample=cex.cex_cert,
         scope='glue only: (a) the pinning verifier accepts a server certificate only if its public key is the expected identity AND the base verifier accepts it, '
               'and proof of key possession (handshake signature) is delegated unchanged to rustls restricted to Ed25519; (b) a dial with an expected identity goes through '
